@@ -181,6 +181,12 @@ theorem moveHome (S : Segmenter) (U : UData) :
 
 macro_rules | `(tactic| gr_extra) => `(tactic| with_reducible apply Grow.moveHome)
 
+theorem moveToFirstPrint (S : Segmenter) (U : UData) :
+    Grow (LB.moveToFirstPrint S U) := by
+  unfold LB.moveToFirstPrint; gr_auto
+
+macro_rules | `(tactic| gr_extra) => `(tactic| with_reducible apply Grow.moveToFirstPrint)
+
 theorem moveEnd (S : Segmenter) (U : UData) :
     Grow (LB.moveEnd S U ) := by
   unfold LB.moveEnd; gr_auto
